@@ -28,6 +28,9 @@ def configs(tier, seed):
     for st in (sts if tier == 'thorough' else [sts[i % 6]]):
       for w in range(2 if tier == 'quick' else 4):
         cfgs.append(dict(name='cache/max%d/%s/w%d' % (mx, st, w), mode='cache', max=mx, strategy=st))
+    # a cache daemon that relays its own metrics (RELAY_CACHE_METRICS) through a dynamic router with no destination up:
+    # the resume event re-injects the relay buffer into the cache from inside the event dispatch
+    cfgs.append(dict(name='cache/max%d/%s/relaybuf' % (mx, sts[(i + 2) % 6]), mode='cache', max=mx, strategy=sts[(i + 2) % 6], relaybuf=True))
     i += 1
   for mq in (2, 4, 10):
     for low in ((0.25, 0.5, 0.8, 1.0) if tier == 'thorough' else (0.5, 0.8)):
@@ -113,8 +116,10 @@ def directed_relay(cfg, res):
 
 def run_cache(cfg, res):
   from vlib import boot, cachesim, sched as S
-  ns = boot.boot('carbon-cache', {'CACHE_WRITE_STRATEGY': cfg['strategy'], 'MAX_CACHE_SIZE': cfg['max'], 'USE_FLOW_CONTROL': True,
-                                  'MAX_UPDATES_PER_SECOND': 'inf'})
+  conf = {'CACHE_WRITE_STRATEGY': cfg['strategy'], 'MAX_CACHE_SIZE': cfg['max'], 'USE_FLOW_CONTROL': True, 'MAX_UPDATES_PER_SECOND': 'inf'}
+  if cfg.get('relaybuf'):
+    conf.update({'RELAY_CACHE_METRICS': True, 'DYNAMIC_ROUTER': True, 'RELAY_METHOD': 'consistent-hashing', 'DESTINATIONS': '127.0.0.1:2004:a'})
+  ns = boot.boot('carbon-cache', conf)
   world = cachesim.World(ns, trace_files=('cache.py', 'events.py', 'protocols.py'), full_pipeline=True)
   r = gen.rng(cfg['seed'], 'C09', cfg['name'])
   label = 'cache'
@@ -140,6 +145,8 @@ def run_cache(cfg, res):
         ops.append(('connect',))
       if r.random() < 0.12:
         ops.append(('disconnect', r.randrange(3)))
+      if cfg.get('relaybuf') and r.random() < 0.5:
+        ops.append(('relaybuf',))
     ops.append(('sleep', 2.5))
     ops.append(('sleep', 2.5))
     ops.append(('stop',))
@@ -149,7 +156,11 @@ def run_cache(cfg, res):
       h = world.run(ops, ('loop',), policy=policy, timeout=60, drain_rest=False, receivers=3)
       res.count('schedules_executed')
       if h.sched_error is not None:
-        res.inconc('%s: %s' % (type(h.sched_error).__name__, h.sched_error))
+        if type(h.sched_error).__name__ == 'Deadlock':
+          res.violation('cache/deadlock', 'threads deadlocked (a thread waits for the cache lock for ever): %s [%s, %s dev=%r] workload=%r' % (
+            h.sched_error, cfg['name'], desc, h.deviations, ops), dict(ops=ops, deviations=h.deviations))
+        else:
+          res.inconc('%s: %s' % (type(h.sched_error).__name__, h.sched_error))
         return h
       res.count('window_switch_inside_event_dispatch', h.window_hits['switch_inside_event_dispatch'])
       paused_ever = any(s_[1] == 'full' for s_ in world.signals)
